@@ -400,7 +400,10 @@ def continuity_check(chunk_iter):
 
         last_end = chunk.end
         last_runid = chunk.run_id
-        last_subrun = chunk.last_subrun
+        if chunk.last_subrun is not None:
+            # A (zero-duration) chunk without subruns does not change
+            # which subrun we are in
+            last_subrun = chunk.last_subrun
 
 
 @export
